@@ -594,3 +594,43 @@ Theorem generated_legacy_tables :
   gen_legacy_reductions = [("sum", "add"); ("prod", "multiply"); ("min", "minimum"); ("max", "maximum")]%string
   /\ gen_legacy_arities = [(1, 1); (1, 2); (2, 1)]%nat.
 Proof. exact legacy_tables_generated. Qed.
+
+(* ------------------------------------------------------------------------
+   Binary legacy ufuncs X.ufuncs.f(x2) on nested power spaces ("recursive
+   broadcasting"), model [legacy2] in C17/Legacy.v, tied by the `legacy2` case
+   set and by regeneration of the wrapper's decision. *)
+
+(* the decision "pair the components iff x2 is in the space of X, else hand the
+   same x2 to every component" is the one in the current source *)
+Theorem generated_pair_decision :
+  forall (T : Type) (t : @ptree T) (a : @arg2 T), pair_decision t a = pair_of gen_pair_cond t a.
+Proof. exact pair_decision_generated. Qed.
+
+(* For EVERY nesting depth and number of parts, every binary one-output ufunc
+   (F2 = result dtype, f2 = the function) and x2 an element of the space of X
+   or of ANY of its inner power / tensor spaces ([inner]): the out-of-place
+   call succeeds and returns the closed form [bspec] (components paired where
+   the spaces agree, x2 repeated above) ... *)
+Theorem legacy_binary_closed_form :
+  forall (T : Type) (cast : dt -> dt -> T -> T) (pv : bool) (F2 : dt -> dt) (f2 : dt -> T -> T -> T)
+         (t u : @ptree T),
+  inner t u ->
+  exists r, legacy2 cast pv F2 f2 false t (A2Tree u) = Ok r
+            /\ cast_like cast t r = bspec cast F2 f2 t u
+            /\ (forall ts, t = PNode ts -> r = bspec cast F2 f2 t u).
+Proof. exact @legacy2_inner. Qed.
+Print Assumptions legacy_binary_closed_form.
+
+(* ... whose stacked array is the ufunc applied entry by entry to the array of
+   X and the array of x2 TILED along the leading axes -- which is what NumPy
+   broadcasting of a (k.., n) array against an (m.., k.., n) array is --
+   converted into the dtype of the space (uniform leaf dtype d). *)
+Theorem legacy_binary_is_numpy_broadcasting :
+  forall (T : Type) (cast : dt -> dt -> T -> T) (pv : bool) (F2 : dt -> dt) (f2 : dt -> T -> T -> T) (d : dt)
+         (ts : list (@ptree T)) (u : @ptree T),
+  inner (PNode ts) u -> all_dtype d (PNode ts) ->
+  exists r, legacy2 cast pv F2 f2 false (PNode ts) (A2Tree u) = Ok r
+            /\ flat r = map2 (fun v w => conv cast (F2 d) d (f2 d v w))
+                             (flat (PNode ts)) (tile (copies (PNode ts) u) (flat u)).
+Proof. exact @legacy2_is_numpy_broadcasting. Qed.
+Print Assumptions legacy_binary_is_numpy_broadcasting.
